@@ -1,300 +1,76 @@
 import WK.Spec.C18
 import WK.Gen.C18
+import WK.Theorems.C18_Mutate
+import WK.Proofs.C18_Loop
 /-
-  C18 — Controller state machine applies commands deterministically.
+  C18 — Controller state machine applies commands deterministically: the batch
+  loop.
 
-  All theorems are about `applyBatch WK.Gen.C18.loopFacts handler valid`, i.e. the
-  batch loop with the guard/bump comparisons the extractor read out of fsm.go on
-  this run, for EVERY handler function and EVERY validation predicate
-  (parameters, never axioms; the handlers' contract before init, `PreInitStrong`,
-  and `ValidIgnoresApplied` are named hypotheses exercised by the differential run).
+  `WK.Proofs.C18_Loop` proves the loop theory for an ARBITRARY function `mutate`
+  that satisfies `MutateContract` (Noop/Rejected ⇒ candidate unchanged, …) with the
+  guard/bump comparisons the extractor read out of fsm.go on this run
+  (`WK.Gen.C18.loopFacts`).  Here:
+  * the `_contract` theorems restate that theory — they are what the batch
+    property needs from the real `applyMutation`, and the harness checks exactly that
+    contract per command on the real handlers (`contract` op, verdict names the kind);
+  * the theorems without suffix are the corollaries for the modelled commit
+    discipline `mutate handler valid`, for EVERY handler and validation function —
+    these are about `applyBatch`, the function the driver executes.
 -/
 namespace WK.C18
 open WK.Gen.C18
 
 variable {β κ : Type} (handler : State β → Nat → κ → Proposal β) (valid : State β → Bool)
 
-/-- the source still has the shape the model mirrors (regenerated facts) -/
-theorem c18_shape : resultShape = true ∧ saveBeforePublish = true ∧ validateChangedShape = true := by decide
+/-- the handler-level loop is the `mutate`-level loop at `mutate handler valid` -/
+theorem applyBatch_eq (F : LoopFacts) (sm : SM β) (es : List (Entry κ)) :
+    applyBatch F handler valid sm es = applyBatchM F (mutate handler valid) sm es := rfl
 
-theorem mutate_cases (s : State β) (idx : Nat) (c : κ) :
-    ((mutate handler valid s idx c).1 = s ∧
-      ((∃ r, (mutate handler valid s idx c).2 = .rejected r) ∨ (∃ r, (mutate handler valid s idx c).2 = .noop r))) ∨
-    (∃ cand, mutate handler valid s idx c = (⟨s.rev + 1, s.applied, cand⟩, .changed) ∧ valid ⟨s.rev + 1, s.applied, cand⟩ = true ∧
-      handler s idx c = .change cand) ∨
-    (∃ cand, mutate handler valid s idx c = (⟨s.rev, s.applied, cand⟩, .updated) ∧ valid ⟨s.rev, s.applied, cand⟩ = true ∧
-      handler s idx c = .update cand) ∨
-    (∃ body, s.rev = 0 ∧ mutate handler valid s idx c = (⟨1, idx, body⟩, .changed) ∧ valid ⟨1, idx, body⟩ = true) := by
-  cases h : handler s idx c with
-  | reject r =>
-    have hm : mutate handler valid s idx c = (s, .rejected r) := by simp [mutate, h]
-    rw [hm]; exact Or.inl ⟨rfl, Or.inl ⟨r, rfl⟩⟩
-  | noop r =>
-    have hm : mutate handler valid s idx c = (s, .noop r) := by simp [mutate, h]
-    rw [hm]; exact Or.inl ⟨rfl, Or.inr ⟨r, rfl⟩⟩
-  | change cand =>
-    by_cases hv : valid ⟨s.rev + 1, s.applied, cand⟩ = true
-    · have hm : mutate handler valid s idx c = (⟨s.rev + 1, s.applied, cand⟩, .changed) := by simp [mutate, h, validateChanged, hv]
-      exact Or.inr (Or.inl ⟨cand, hm, hv, rfl⟩)
-    · have hm : mutate handler valid s idx c = (s, .rejected reasonInvalidState) := by simp [mutate, h, validateChanged, hv]
-      rw [hm]; exact Or.inl ⟨rfl, Or.inl ⟨_, rfl⟩⟩
-  | update cand =>
-    by_cases hv : valid ⟨s.rev, s.applied, cand⟩ = true
-    · have hm : mutate handler valid s idx c = (⟨s.rev, s.applied, cand⟩, .updated) := by simp [mutate, h, hv]
-      exact Or.inr (Or.inr (Or.inl ⟨cand, hm, hv, rfl⟩))
-    · have hm : mutate handler valid s idx c = (s, .rejected reasonInvalidState) := by simp [mutate, h, hv]
-      rw [hm]; exact Or.inl ⟨rfl, Or.inl ⟨_, rfl⟩⟩
-  | init body =>
-    by_cases hv : valid ⟨1, idx, body⟩ = true
-    · by_cases hr : s.rev = 0
-      · have hm : mutate handler valid s idx c = (⟨1, idx, body⟩, .changed) := by simp [mutate, h, hv, hr]
-        exact Or.inr (Or.inr (Or.inr ⟨body, hr, hm, hv⟩))
-      · have hm : mutate handler valid s idx c = (s, .rejected reasonInitConflict) := by simp [mutate, h, hv, hr]
-        rw [hm]; exact Or.inl ⟨rfl, Or.inl ⟨_, rfl⟩⟩
-    · have hm : mutate handler valid s idx c = (s, .rejected reasonInvalidState) := by simp [mutate, h, hv]
-      rw [hm]; exact Or.inl ⟨rfl, Or.inl ⟨_, rfl⟩⟩
+section contract
+variable (mutate : State β → Nat → κ → State β × Outcome)
 
-/-- **Revision discipline** of one command: `Changed` ⇒ revision + 1 and the new
-    state passed `Validate`; `Updated` ⇒ revision and applied index unchanged and the
-    new state passed `Validate`; `Noop`/`Rejected` ⇒ the state is untouched. -/
-theorem c18_revision_step (s : State β) (idx : Nat) (c : κ) :
-    ((mutate handler valid s idx c).2 = .changed →
-        (mutate handler valid s idx c).1.rev = s.rev + 1 ∧ valid (mutate handler valid s idx c).1 = true) ∧
-    ((mutate handler valid s idx c).2 = .updated →
-        (mutate handler valid s idx c).1.rev = s.rev ∧ (mutate handler valid s idx c).1.applied = s.applied ∧
-        valid (mutate handler valid s idx c).1 = true) ∧
-    (∀ r, (mutate handler valid s idx c).2 = .noop r ∨ (mutate handler valid s idx c).2 = .rejected r →
-        (mutate handler valid s idx c).1 = s) := by
-  rcases mutate_cases handler valid s idx c with ⟨h1, h2⟩ | ⟨cand, h, hv, _⟩ | ⟨cand, h, hv, _⟩ | ⟨body, hr, h, hv⟩
-  · refine ⟨?_, ?_, fun _ _ => h1⟩
-    · intro hc; rcases h2 with ⟨r, hr⟩ | ⟨r, hr⟩ <;> rw [hr] at hc <;> cases hc
-    · intro hc; rcases h2 with ⟨r, hr⟩ | ⟨r, hr⟩ <;> rw [hr] at hc <;> cases hc
-  · rw [h]; refine ⟨fun _ => ⟨rfl, hv⟩, fun hc => by simp at hc, ?_⟩
-    intro r hc; simp at hc
-  · rw [h]; refine ⟨fun hc => by simp at hc, fun _ => ⟨rfl, rfl, hv⟩, ?_⟩
-    intro r hc; simp at hc
-  · rw [h]; refine ⟨fun _ => ⟨by simp [hr], hv⟩, fun hc => by simp at hc, ?_⟩
-    intro r hc; simp at hc
+/-- **Batch-partition transparency from the contract alone.** -/
+theorem c18_batch_append_contract (hmc : MutateContract mutate) (hpre : UninitContract mutate) (sm : SM β) (b1 b2 : List (Entry κ))
+    (h : sm.published.rev ≠ 0 ∨ StrictIdx (b1 ++ b2)) :
+    (applyBatchM loopFacts mutate (applyBatchM loopFacts mutate sm b1).1 b2).1 = (applyBatchM loopFacts mutate sm (b1 ++ b2)).1 ∧
+    (applyBatchM loopFacts mutate sm b1).2 ++ (applyBatchM loopFacts mutate (applyBatchM loopFacts mutate sm b1).1 b2).2 =
+      (applyBatchM loopFacts mutate sm (b1 ++ b2)).2 :=
+  M.c18_batch_append mutate hmc hpre sm b1 b2 h
 
-/-- `if next.Revision != 0 && entry.Index > next.AppliedRaftIndex { next.AppliedRaftIndex = entry.Index }` -/
-def bump (n : State β) (idx : Nat) : State β := if n.rev ≠ 0 ∧ idx > n.applied then { n with applied := idx } else n
+/-- **Restart + replay from the contract alone.** -/
+theorem c18_restart_replay_contract (hmc : MutateContract mutate) (empty : State β) (sm : SM β) (es es' : List (Entry κ))
+    (hst : StrictIdx es) (hsub : ∀ e ∈ es', e ∈ es)
+    (hinit : (applyBatchM loopFacts mutate sm es).1.published.rev ≠ 0) :
+    applyBatchM loopFacts mutate (restart empty (applyBatchM loopFacts mutate sm es).1) es' =
+      ((applyBatchM loopFacts mutate sm es).1,
+       es'.map (fun _ => ⟨.noop reasonAlreadyApplied, (applyBatchM loopFacts mutate sm es).1.published.rev,
+                          (applyBatchM loopFacts mutate sm es).1.published.applied⟩)) :=
+  M.c18_restart_replay mutate hmc empty sm es es' hst hsub hinit
 
-/-- the loop iteration with the regenerated comparisons, in Prop form -/
-theorem step_eq (current : State β) (acc : State β × List Result) (e : Entry κ) :
-    stepEntry loopFacts handler valid current acc e =
-      if current.rev ≠ 0 ∧ e.idx ≤ acc.1.applied then
-        (acc.1, acc.2 ++ [⟨.noop reasonAlreadyApplied, acc.1.rev, acc.1.applied⟩])
-      else
-        (bump (mutate handler valid acc.1 e.idx e.cmd).1 e.idx,
-         acc.2 ++ [⟨(mutate handler valid acc.1 e.idx e.cmd).2, (bump (mutate handler valid acc.1 e.idx e.cmd).1 e.idx).rev,
-           if (bump (mutate handler valid acc.1 e.idx e.cmd).1 e.idx).rev = 0 ∧ (mutate handler valid acc.1 e.idx e.cmd).2.isRejected
-             then e.idx else (bump (mutate handler valid acc.1 e.idx e.cmd).1 e.idx).applied⟩]) := by
-  simp only [stepEntry, guardFires, raises, loopFacts, bump]
-  by_cases hg : current.rev ≠ 0 ∧ e.idx ≤ acc.1.applied
-  · simp [hg.1, hg.2]
-  · by_cases h1 : current.rev = 0
-    · simp [h1]
-    · have h3 : ¬ e.idx ≤ acc.1.applied := fun hh => hg ⟨h1, hh⟩
-      simp [h1, h3]
+/-- **Published states are valid from the contract alone** (`ValidContract`: what a
+    command produces passed `Validate`). -/
+theorem c18_published_valid_contract (valid : State β → Bool) (hvc : ValidContract valid mutate) (hva : ValidIgnoresApplied valid)
+    (sm : SM β) (es : List (Entry κ)) (h : PublishedValid valid sm) :
+    PublishedValid valid (applyBatchM loopFacts mutate sm es).1 ∧
+    ((applyBatchM loopFacts mutate sm es).1 = sm ∨
+     (applyBatchM loopFacts mutate sm es).1.file = some (applyBatchM loopFacts mutate sm es).1.published) :=
+  M.c18_published_valid mutate valid hvc hva sm es h
 
-theorem step_acc (F : LoopFacts) (cur s : State β) (acc : List Result) (e : Entry κ) :
-    stepEntry F handler valid cur (s, acc) e =
-      ((stepEntry F handler valid cur (s, []) e).1, acc ++ (stepEntry F handler valid cur (s, []) e).2) := by
-  simp only [stepEntry]
-  split <;> simp
+/-- non-vacuity of the contract theorems: a `mutate` that is not of the modelled
+    handler form (it counts commands in the body) meets both contracts -/
+example : MutateContract (fun (s : State Nat) (i : Nat) (c : Nat) =>
+      if s.rev = 0 then (if c = 0 then ((⟨1, i, 0⟩ : State Nat), Outcome.changed) else (s, .rejected "invalid_command"))
+      else if c = 0 then (s, .noop "no_change") else (⟨s.rev + 1, s.applied, s.body + c⟩, .changed)) ∧
+    UninitContract (fun (s : State Nat) (i : Nat) (c : Nat) =>
+      if s.rev = 0 then (if c = 0 then ((⟨1, i, 0⟩ : State Nat), Outcome.changed) else (s, .rejected "invalid_command"))
+      else if c = 0 then (s, .noop "no_change") else (⟨s.rev + 1, s.applied, s.body + c⟩, .changed)) := by
+  refine ⟨?_, ?_⟩
+  · intro s i c
+    by_cases h0 : s.rev = 0 <;> by_cases hc : c = 0 <;> simp [h0, hc]
+  · intro s i c h0
+    by_cases hc : c = 0 <;> simp [h0, hc]
 
-theorem bump_rev (n : State β) (i : Nat) : (bump n i).rev = n.rev := by
-  unfold bump; split <;> rfl
-
-theorem bump_zero (n : State β) (i : Nat) (h : n.rev = 0) : bump n i = n := by
-  unfold bump; simp [h]
-
-theorem bump_applied (n : State β) (i : Nat) (h : n.rev ≠ 0) :
-    n.applied ≤ (bump n i).applied ∧ i ≤ (bump n i).applied ∧ ((bump n i).applied = n.applied ∨ (bump n i).applied = i) := by
-  unfold bump
-  by_cases hb : i > n.applied
-  · simp [h, hb]; omega
-  · simp [hb]; omega
-
-theorem mutate_init (s : State β) (idx : Nat) (c : κ) (h : s.rev ≠ 0) :
-    (mutate handler valid s idx c).1.rev ≠ 0 ∧ (mutate handler valid s idx c).1.applied = s.applied := by
-  rcases mutate_cases handler valid s idx c with ⟨h1, _⟩ | ⟨cand, hh, _, _⟩ | ⟨cand, hh, _, _⟩ | ⟨body, hr, _, _⟩
-  · rw [h1]; exact ⟨h, rfl⟩
-  · rw [hh]; exact ⟨by simp, rfl⟩
-  · rw [hh]; exact ⟨h, rfl⟩
-  · exact absurd hr h
-
-theorem run_acc (F : LoopFacts) (cur : State β) (es : List (Entry κ)) : ∀ (s : State β) (acc : List Result),
-    runEntries F handler valid cur es (s, acc) =
-      ((runEntries F handler valid cur es (s, [])).1, acc ++ (runEntries F handler valid cur es (s, [])).2) := by
-  induction es with
-  | nil => intro s acc; simp [runEntries]
-  | cons e rest ih =>
-    intro s acc
-    simp only [runEntries, List.foldl_cons] at ih ⊢
-    rw [step_acc handler valid F cur s acc e]
-    rw [ih (stepEntry F handler valid cur (s, []) e).1 (acc ++ (stepEntry F handler valid cur (s, []) e).2)]
-    have h2 : stepEntry F handler valid cur (s, []) e =
-        ((stepEntry F handler valid cur (s, []) e).1, (stepEntry F handler valid cur (s, []) e).2) := rfl
-    rw [h2, ih (stepEntry F handler valid cur (s, []) e).1 (stepEntry F handler valid cur (s, []) e).2]
-    simp [List.append_assoc]
-
-theorem run_append (F : LoopFacts) (cur : State β) (b1 b2 : List (Entry κ)) (a : State β × List Result) :
-    runEntries F handler valid cur (b1 ++ b2) a = runEntries F handler valid cur b2 (runEntries F handler valid cur b1 a) := by
-  simp [runEntries, List.foldl_append]
-
-/-- the state after one iteration -/
-theorem step_fst (cur s : State β) (acc : List Result) (e : Entry κ) :
-    (stepEntry loopFacts handler valid cur (s, acc) e).1 =
-      if cur.rev ≠ 0 ∧ e.idx ≤ s.applied then s else bump (mutate handler valid s e.idx e.cmd).1 e.idx := by
-  rw [step_eq]; split <;> rfl
-
-theorem step_state (cur s : State β) (acc : List Result) (e : Entry κ) :
-    (s.rev ≠ 0 → (stepEntry loopFacts handler valid cur (s, acc) e).1.rev ≠ 0 ∧
-        s.applied ≤ (stepEntry loopFacts handler valid cur (s, acc) e).1.applied ∧
-        ((stepEntry loopFacts handler valid cur (s, acc) e).1.applied = s.applied ∨
-         (stepEntry loopFacts handler valid cur (s, acc) e).1.applied = e.idx)) ∧
-    ((stepEntry loopFacts handler valid cur (s, acc) e).1.rev ≠ 0 → e.idx ≤ (stepEntry loopFacts handler valid cur (s, acc) e).1.applied) := by
-  rw [step_fst]
-  by_cases hg : cur.rev ≠ 0 ∧ e.idx ≤ s.applied
-  · rw [if_pos hg]
-    exact ⟨fun h => ⟨h, Nat.le_refl _, Or.inl rfl⟩, fun _ => hg.2⟩
-  · rw [if_neg hg]
-    refine ⟨fun h => ?_, fun h => ?_⟩
-    · have hm := mutate_init handler valid s e.idx e.cmd h
-      have hb := bump_applied (mutate handler valid s e.idx e.cmd).1 e.idx hm.1
-      rw [bump_rev]
-      refine ⟨hm.1, ?_, ?_⟩
-      · rw [← hm.2]; exact hb.1
-      · rw [← hm.2]; exact hb.2.2
-    · rw [bump_rev] at h
-      exact (bump_applied _ e.idx h).2.1
-
-theorem run_rev_ne_zero (cur : State β) (es : List (Entry κ)) : ∀ (s : State β) (acc : List Result), s.rev ≠ 0 →
-    (runEntries loopFacts handler valid cur es (s, acc)).1.rev ≠ 0 := by
-  induction es with
-  | nil => intro s acc h; exact h
-  | cons e rest ih =>
-    intro s acc h
-    simp only [runEntries, List.foldl_cons] at ih ⊢
-    have := ((step_state handler valid cur s acc e).1 h).1
-    exact ih _ _ this
-
-theorem step_cur_irrel (cur cur' : State β) (h : cur.rev ≠ 0) (h' : cur'.rev ≠ 0) (a : State β × List Result) (e : Entry κ) :
-    stepEntry loopFacts handler valid cur a e = stepEntry loopFacts handler valid cur' a e := by
-  rw [step_eq, step_eq]; simp [h, h']
-
-theorem run_cur_irrel (cur cur' : State β) (h : cur.rev ≠ 0) (h' : cur'.rev ≠ 0) (es : List (Entry κ)) (a : State β × List Result) :
-    runEntries loopFacts handler valid cur es a = runEntries loopFacts handler valid cur' es a := by
-  simp only [runEntries]
-  congr 1
-  funext a e
-  exact step_cur_irrel handler valid cur cur' h h' a e
-
-/-- the handlers' contract before init: on an uninitialised state a handler
-    rejects, no-ops, or is `applyInit` (every handler starts with
-    `if next.Revision == 0 ... return reject(...)`) -/
-def PreInitStrong (handler : State β → Nat → κ → Proposal β) : Prop :=
-  ∀ s idx c, s.rev = 0 → (∃ r, handler s idx c = .reject r) ∨ (∃ r, handler s idx c = .noop r) ∨ (∃ b, handler s idx c = .init b)
-
-theorem mutate_uninit (hpre : PreInitStrong handler) (s : State β) (idx : Nat) (c : κ) (hs : s.rev = 0) :
-    (mutate handler valid s idx c).1 = s ∨ ((mutate handler valid s idx c).1.rev ≠ 0 ∧ (mutate handler valid s idx c).1.applied = idx) := by
-  rcases mutate_cases handler valid s idx c with ⟨h1, _⟩ | ⟨cand, _, _, hh⟩ | ⟨cand, _, _, hh⟩ | ⟨body, _, h, _⟩
-  · exact Or.inl h1
-  · rcases hpre s idx c hs with ⟨r, h⟩ | ⟨r, h⟩ | ⟨b, h⟩ <;> rw [h] at hh <;> cases hh
-  · rcases hpre s idx c hs with ⟨r, h⟩ | ⟨r, h⟩ | ⟨b, h⟩ <;> rw [h] at hh <;> cases hh
-  · rw [h]; exact Or.inr ⟨by simp, rfl⟩
-
-theorem step_uninit (hpre : PreInitStrong handler) (cur s : State β) (hc : cur.rev = 0) (hs : s.rev = 0) (acc : List Result) (e : Entry κ) :
-    ((stepEntry loopFacts handler valid cur (s, acc) e).1.rev = 0 → (stepEntry loopFacts handler valid cur (s, acc) e).1 = s) ∧
-    ((stepEntry loopFacts handler valid cur (s, acc) e).1.rev ≠ 0 → (stepEntry loopFacts handler valid cur (s, acc) e).1.applied = e.idx) := by
-  rw [step_fst]
-  have hg : ¬ (cur.rev ≠ 0 ∧ e.idx ≤ s.applied) := fun h => h.1 hc
-  rw [if_neg hg]
-  rcases mutate_uninit handler valid hpre s e.idx e.cmd hs with h | ⟨h1, h2⟩
-  · rw [h, bump_zero s e.idx hs]
-    exact ⟨fun _ => rfl, fun h => absurd hs h⟩
-  · refine ⟨fun h => ?_, fun _ => ?_⟩
-    · rw [bump_rev] at h; exact absurd h h1
-    · rcases (bump_applied _ e.idx h1).2.2 with hb | hb
-      · rw [hb, h2]
-      · exact hb
-
-theorem run_uninit (hpre : PreInitStrong handler) (cur : State β) (hc : cur.rev = 0) (N : Nat) (es : List (Entry κ)) :
-    ∀ (s : State β) (acc : List Result), (s.rev ≠ 0 → s.applied < N) → (∀ e ∈ es, e.idx < N) →
-      ((runEntries loopFacts handler valid cur es (s, acc)).1.rev = 0 → (runEntries loopFacts handler valid cur es (s, acc)).1 = s) ∧
-      ((runEntries loopFacts handler valid cur es (s, acc)).1.rev ≠ 0 → (runEntries loopFacts handler valid cur es (s, acc)).1.applied < N) := by
-  induction es with
-  | nil => intro s acc hb _; exact ⟨fun _ => rfl, hb⟩
-  | cons e rest ih =>
-    intro s acc hb hN
-    simp only [runEntries, List.foldl_cons] at ih ⊢
-    have hrest : ∀ x ∈ rest, x.idx < N := fun x hx => hN x (by simp [hx])
-    have he : e.idx < N := hN e (by simp)
-    have h2 : stepEntry loopFacts handler valid cur (s, acc) e =
-        ((stepEntry loopFacts handler valid cur (s, acc) e).1, (stepEntry loopFacts handler valid cur (s, acc) e).2) := rfl
-    rw [h2]
-    by_cases hs : s.rev = 0
-    · have hu := step_uninit handler valid hpre cur s hc hs acc e
-      have hb1 : (stepEntry loopFacts handler valid cur (s, acc) e).1.rev ≠ 0 →
-          (stepEntry loopFacts handler valid cur (s, acc) e).1.applied < N := fun h => by rw [hu.2 h]; exact he
-      have := ih (stepEntry loopFacts handler valid cur (s, acc) e).1 (stepEntry loopFacts handler valid cur (s, acc) e).2 hb1 hrest
-      refine ⟨fun hf => ?_, this.2⟩
-      have h1 := this.1 hf
-      rw [h1] at hf ⊢
-      exact hu.1 hf
-    · have hst := (step_state handler valid cur s acc e).1 hs
-      have hb1 : (stepEntry loopFacts handler valid cur (s, acc) e).1.rev ≠ 0 →
-          (stepEntry loopFacts handler valid cur (s, acc) e).1.applied < N := fun _ => by
-        rcases hst.2.2 with h | h
-        · rw [h]; exact hb hs
-        · rw [h]; exact he
-      have := ih (stepEntry loopFacts handler valid cur (s, acc) e).1 (stepEntry loopFacts handler valid cur (s, acc) e).2 hb1 hrest
-      refine ⟨fun hf => ?_, this.2⟩
-      exact absurd hf (run_rev_ne_zero handler valid cur rest _ _ hst.1)
-
-theorem run_guard_irrel (cur cur' : State β) (hc : cur.rev = 0) (es : List (Entry κ)) :
-    ∀ (s : State β) (acc : List Result), s.rev ≠ 0 → StrictIdx es → (∀ e ∈ es, s.applied < e.idx) →
-      runEntries loopFacts handler valid cur es (s, acc) = runEntries loopFacts handler valid cur' es (s, acc) := by
-  induction es with
-  | nil => intro s acc _ _ _; rfl
-  | cons e rest ih =>
-    intro s acc hs hst hlt
-    simp only [runEntries, List.foldl_cons] at ih ⊢
-    have he : s.applied < e.idx := hlt e (by simp)
-    have hstep : stepEntry loopFacts handler valid cur (s, acc) e = stepEntry loopFacts handler valid cur' (s, acc) e := by
-      have hng : ¬ e.idx ≤ s.applied := by omega
-      rw [step_eq, step_eq]; simp [hc, hng]
-    rw [← hstep]
-    have hss := (step_state handler valid cur s acc e).1 hs
-    have hp := List.pairwise_cons.mp hst
-    have h2 : stepEntry loopFacts handler valid cur (s, acc) e =
-        ((stepEntry loopFacts handler valid cur (s, acc) e).1, (stepEntry loopFacts handler valid cur (s, acc) e).2) := rfl
-    rw [h2]
-    apply ih _ _ hss.1 hp.2
-    intro x hx
-    have hex : e.idx < x.idx := hp.1 x hx
-    rcases hss.2.2 with h | h
-    · rw [h]; omega
-    · rw [h]; exact hex
-
-theorem idx_lt_bound (e : Entry κ) : ∀ (l : List (Entry κ)) (m : Nat), e ∈ l → e.idx < l.foldl (fun m e => max m (e.idx + 1)) m := by
-  have mono : ∀ (l : List (Entry κ)) (m : Nat), m ≤ l.foldl (fun m e => max m (e.idx + 1)) m := by
-    intro l; induction l with
-    | nil => intro m; exact Nat.le_refl _
-    | cons y ys ih2 => intro m; simp only [List.foldl_cons]; exact Nat.le_trans (Nat.le_max_left _ _) (ih2 _)
-  intro l
-  induction l with
-  | nil => intro m h; cases h
-  | cons x xs ih =>
-    intro m h
-    simp only [List.foldl_cons]
-    rcases List.mem_cons.mp h with h | h
-    · subst h
-      have := mono xs (max m (e.idx + 1))
-      have h3 : e.idx + 1 ≤ max m (e.idx + 1) := Nat.le_max_right _ _
-      omega
-    · exact ih _ h
+end contract
 
 /-- **Batch-partition transparency**: if the machine is initialised, or the
     indices are strictly increasing (a committed Raft log), applying `b₁` and then
@@ -308,52 +84,8 @@ theorem c18_batch_append (hpre : PreInitStrong handler) (sm : SM β) (b1 b2 : Li
       (applyBatch loopFacts handler valid sm (b1 ++ b2)).1 ∧
     (applyBatch loopFacts handler valid sm b1).2 ++
       (applyBatch loopFacts handler valid (applyBatch loopFacts handler valid sm b1).1 b2).2 =
-      (applyBatch loopFacts handler valid sm (b1 ++ b2)).2 := by
-  have hsplit : runEntries loopFacts handler valid sm.published (b1 ++ b2) (sm.published, []) =
-      runEntries loopFacts handler valid sm.published b2 (runEntries loopFacts handler valid sm.published b1 (sm.published, [])) :=
-    run_append handler valid _ _ b1 b2 _
-  generalize hr1 : runEntries loopFacts handler valid sm.published b1 (sm.published, []) = r1 at hsplit
-  obtain ⟨q, res1⟩ := r1
-  by_cases hq : q.rev = 0
-  · have hp0 : sm.published.rev = 0 := by
-      by_cases hp : sm.published.rev = 0
-      · exact hp
-      · have := run_rev_ne_zero handler valid sm.published b1 sm.published [] hp
-        rw [hr1] at this; exact absurd hq this
-    have hqp : q = sm.published := by
-      have := (run_uninit handler valid hpre sm.published hp0 (b1.foldl (fun m e => max m (e.idx + 1)) 0) b1 sm.published []
-        (fun h => absurd hp0 h) (fun e he => idx_lt_bound e b1 0 he)).1
-      rw [hr1] at this
-      exact this hq
-    have h1 : applyBatch loopFacts handler valid sm b1 = (sm, res1) := by
-      simp [applyBatch, hr1, hq]
-    rw [h1]
-    simp only [applyBatch]
-    rw [hsplit, hqp, run_acc handler valid loopFacts sm.published b2 sm.published res1]
-    split <;> simp
-  · have h1 : applyBatch loopFacts handler valid sm b1 = ({ published := q, file := some q }, res1) := by
-      simp [applyBatch, hr1, hq]
-    rw [h1]
-    have hsame : runEntries loopFacts handler valid q b2 (q, []) = runEntries loopFacts handler valid sm.published b2 (q, []) := by
-      by_cases hp : sm.published.rev = 0
-      · have hst : StrictIdx (b1 ++ b2) := by
-          rcases h with h | h
-          · exact absurd hp h
-          · exact h
-        have hpa := List.pairwise_append.mp hst
-        symm
-        apply run_guard_irrel handler valid sm.published q hp b2 q [] hq hpa.2.1
-        intro e he
-        have := (run_uninit handler valid hpre sm.published hp e.idx b1 sm.published [] (fun h => absurd hp h)
-          (fun x hx => hpa.2.2 x hx e he)).2
-        rw [hr1] at this
-        exact this hq
-      · exact run_cur_irrel handler valid q sm.published hq hp b2 _
-    have hne : (runEntries loopFacts handler valid sm.published b2 (q, [])).1.rev ≠ 0 :=
-      run_rev_ne_zero handler valid _ b2 q [] hq
-    simp only [applyBatch]
-    rw [hsplit, run_acc handler valid loopFacts sm.published b2 q res1, hsame]
-    simp [hne]
+      (applyBatch loopFacts handler valid sm (b1 ++ b2)).2 :=
+  M.c18_batch_append (mutate handler valid) (c18_mutate_contract handler valid) (c18_mutate_uninit handler valid hpre) sm b1 b2 h
 
 /-- the hypothesis of `c18_batch_append` is needed: from an uninitialised machine
     the log `[init@5, x@3]` (not increasing) ends differently in one batch (`x` is
@@ -383,59 +115,13 @@ theorem c18_replay_noop (sm : SM β) (es : List (Entry κ)) (hrev : sm.published
     (hidx : ∀ e ∈ es, e.idx ≤ sm.published.applied) :
     applyBatch loopFacts handler valid sm es =
       ({ published := sm.published, file := some sm.published },
-       es.map (fun _ => ⟨.noop reasonAlreadyApplied, sm.published.rev, sm.published.applied⟩)) := by
-  have : ∀ (l : List (Entry κ)) (acc : List Result), (∀ e ∈ l, e.idx ≤ sm.published.applied) →
-      runEntries loopFacts handler valid sm.published l (sm.published, acc) =
-        (sm.published, acc ++ l.map (fun _ => ⟨.noop reasonAlreadyApplied, sm.published.rev, sm.published.applied⟩)) := by
-    intro l
-    induction l with
-    | nil => intro acc _; simp [runEntries]
-    | cons e rest ih =>
-      intro acc hl
-      simp only [runEntries, List.foldl_cons] at ih ⊢
-      have he : e.idx ≤ sm.published.applied := hl e (by simp)
-      rw [step_eq, if_pos ⟨hrev, he⟩]
-      rw [ih _ (fun x hx => hl x (by simp [hx]))]
-      simp [List.append_assoc]
-  simp [applyBatch, this es [] hidx, hrev]
+       es.map (fun _ => ⟨.noop reasonAlreadyApplied, sm.published.rev, sm.published.applied⟩)) :=
+  M.c18_replay_noop (mutate handler valid) (c18_mutate_contract handler valid) sm es hrev hidx
 
 example : applyBatch loopFacts (fun (s : State Nat) _ (c : Nat) => Proposal.change (s.body + c)) (fun _ => true)
     { published := ⟨3, 10, 0⟩, file := some ⟨3, 10, 0⟩ } [⟨9, 1⟩, ⟨10, 1⟩] =
     ({ published := ⟨3, 10, 0⟩, file := some ⟨3, 10, 0⟩ },
      [⟨.noop reasonAlreadyApplied, 3, 10⟩, ⟨.noop reasonAlreadyApplied, 3, 10⟩]) := by decide
-
-theorem run_applied_covers (cur : State β) (es : List (Entry κ)) : ∀ (s : State β) (acc : List Result), StrictIdx es →
-    (runEntries loopFacts handler valid cur es (s, acc)).1.rev ≠ 0 →
-      (∀ e ∈ es, e.idx ≤ (runEntries loopFacts handler valid cur es (s, acc)).1.applied) ∧
-      (s.rev ≠ 0 → s.applied ≤ (runEntries loopFacts handler valid cur es (s, acc)).1.applied) := by
-  induction es with
-  | nil => intro s acc _ _; exact ⟨fun e he => by simp at he, fun _ => Nat.le_refl _⟩
-  | cons e rest ih =>
-    intro s acc hst
-    simp only [runEntries, List.foldl_cons] at ih ⊢
-    have h2 : stepEntry loopFacts handler valid cur (s, acc) e =
-        ((stepEntry loopFacts handler valid cur (s, acc) e).1, (stepEntry loopFacts handler valid cur (s, acc) e).2) := rfl
-    rw [h2]
-    intro hf
-    have hp := List.pairwise_cons.mp hst
-    have hss := step_state handler valid cur s acc e
-    have hi := ih (stepEntry loopFacts handler valid cur (s, acc) e).1 (stepEntry loopFacts handler valid cur (s, acc) e).2 hp.2 hf
-    refine ⟨?_, ?_⟩
-    · intro x hx
-      rcases List.mem_cons.mp hx with hx | hx
-      · subst hx
-        by_cases h1 : (stepEntry loopFacts handler valid cur (s, acc) x).1.rev = 0
-        · cases rest with
-          | nil => simp only [List.foldl_nil] at hf; exact absurd h1 hf
-          | cons y ys =>
-            have := hi.1 y (by simp)
-            have hxy : x.idx < y.idx := hp.1 y (by simp)
-            omega
-        · exact Nat.le_trans (hss.2 h1) (hi.2 h1)
-      · exact hi.1 x hx
-    · intro hs
-      have := (hss.1 hs)
-      exact Nat.le_trans this.2.1 (hi.2 this.1)
 
 /-- **Restart + replay**: apply a committed (strictly increasing) log in one
     batch, restart from the state file, re-apply any already-applied entries of that
@@ -446,28 +132,8 @@ theorem c18_restart_replay (empty : State β) (sm : SM β) (es es' : List (Entry
     applyBatch loopFacts handler valid (restart empty (applyBatch loopFacts handler valid sm es).1) es' =
       ((applyBatch loopFacts handler valid sm es).1,
        es'.map (fun _ => ⟨.noop reasonAlreadyApplied, (applyBatch loopFacts handler valid sm es).1.published.rev,
-                          (applyBatch loopFacts handler valid sm es).1.published.applied⟩)) := by
-  generalize hsm : (applyBatch loopFacts handler valid sm es).1 = sm' at hinit ⊢
-  have hfile : sm'.file = some sm'.published ∧ (∀ e ∈ es, e.idx ≤ sm'.published.applied) := by
-    simp only [applyBatch] at hsm
-    by_cases h0 : (runEntries loopFacts handler valid sm.published es (sm.published, [])).1.rev = 0
-    · rw [if_pos h0] at hsm
-      simp only at hsm
-      subst hsm
-      have := run_rev_ne_zero handler valid sm.published es sm.published [] hinit
-      exact absurd h0 this
-    · rw [if_neg h0] at hsm
-      simp only at hsm
-      subst hsm
-      exact ⟨rfl, (run_applied_covers handler valid sm.published es sm.published [] hst h0).1⟩
-  obtain ⟨p, f⟩ := sm'
-  simp only at hfile hinit
-  have hre : restart empty ({ published := p, file := f } : SM β) = { published := p, file := f } := by
-    simp [restart, hfile.1]
-  rw [hre]
-  have := c18_replay_noop handler valid ({ published := p, file := f } : SM β) es' hinit (fun e he => hfile.2 e (hsub e he))
-  rw [this]
-  simp [hfile.1]
+                          (applyBatch loopFacts handler valid sm es).1.published.applied⟩)) :=
+  M.c18_restart_replay (mutate handler valid) (c18_mutate_contract handler valid) empty sm es es' hst hsub hinit
 
 /-- **Everything published or saved is valid**: if `Validate` does not look at the
     applied index, `ApplyBatch` keeps "the published state, when initialised, passed
@@ -477,50 +143,12 @@ theorem c18_published_valid (hva : ValidIgnoresApplied valid) (sm : SM β) (es :
     (h : PublishedValid valid sm) :
     PublishedValid valid (applyBatch loopFacts handler valid sm es).1 ∧
     ((applyBatch loopFacts handler valid sm es).1 = sm ∨
-     (applyBatch loopFacts handler valid sm es).1.file = some (applyBatch loopFacts handler valid sm es).1.published) := by
-  have key : ∀ (l : List (Entry κ)) (s : State β) (acc : List Result), (s.rev ≠ 0 → valid s = true) →
-      ((runEntries loopFacts handler valid sm.published l (s, acc)).1.rev ≠ 0 →
-        valid (runEntries loopFacts handler valid sm.published l (s, acc)).1 = true) := by
-    intro l
-    induction l with
-    | nil => intro s acc hs; exact hs
-    | cons e rest ih =>
-      intro s acc hs
-      simp only [runEntries, List.foldl_cons] at ih ⊢
-      have h2 : stepEntry loopFacts handler valid sm.published (s, acc) e =
-        ((stepEntry loopFacts handler valid sm.published (s, acc) e).1, (stepEntry loopFacts handler valid sm.published (s, acc) e).2) := rfl
-      rw [h2]
-      apply ih
-      rw [step_fst]
-      by_cases hg : sm.published.rev ≠ 0 ∧ e.idx ≤ s.applied
-      · rw [if_pos hg]; exact hs
-      · rw [if_neg hg]
-        have hv1 : (mutate handler valid s e.idx e.cmd).1.rev ≠ 0 → valid (mutate handler valid s e.idx e.cmd).1 = true := by
-          rcases mutate_cases handler valid s e.idx e.cmd with ⟨h1, _⟩ | ⟨cand, hh, hv, _⟩ | ⟨cand, hh, hv, _⟩ | ⟨body, _, hh, hv⟩
-          · rw [h1]; exact hs
-          · rw [hh]; exact fun _ => hv
-          · rw [hh]; exact fun _ => hv
-          · rw [hh]; exact fun _ => hv
-        intro hr
-        rw [bump_rev] at hr
-        unfold bump
-        split
-        · rw [hva]; exact hv1 hr
-        · exact hv1 hr
-  simp only [applyBatch]
-  split
-  · exact ⟨h, Or.inl rfl⟩
-  · rename_i hne
-    exact ⟨fun _ => key es sm.published [] h hne, Or.inr rfl⟩
+     (applyBatch loopFacts handler valid sm es).1.file = some (applyBatch loopFacts handler valid sm es).1.published) :=
+  M.c18_published_valid (mutate handler valid) valid (c18_mutate_valid handler valid) hva sm es h
 
 example : PublishedValid (fun (s : State Nat) => decide (s.body < 10)) { published := ⟨2, 5, 3⟩, file := none } := by
   intro _; decide
 example : ValidIgnoresApplied (fun (s : State Nat) => decide (s.body < 10)) := fun _ _ => rfl
-example : PreInitStrong (fun (s : State Nat) (_ : Nat) (c : Nat) =>
-    if s.rev = 0 then (if c = 0 then Proposal.init 1 else .reject "invalid_command") else .change c) := by
-  intro s idx c hs
-  by_cases hc : c = 0
-  · exact Or.inr (Or.inr ⟨1, by simp [hs, hc]⟩)
-  · exact Or.inl ⟨"invalid_command", by simp [hs, hc]⟩
 example : Coherent (⟨0, 0, 0⟩ : State Nat) { published := ⟨0, 0, 0⟩, file := none } := Or.inr ⟨rfl, rfl⟩
+
 end WK.C18
